@@ -66,8 +66,31 @@ pub fn child(args: &[String]) {
         .build()
         .unwrap();
     let store = Store::new(dir);
+    // operations marked via=http go through the real HTTP front end (src/api.rs), served
+    // inside this process so that a kill takes client, server and store together
+    let http = spec["ops"].as_array().unwrap().iter().any(|o| o["via"].as_str() == Some("http"));
+    let mut open = json!({});
+    let srv_rt;
+    if http {
+        srv_rt = tokio::runtime::Builder::new_multi_thread().worker_threads(2).enable_all().build().unwrap();
+        let engine = xs::nu::Engine::new().expect("nu engine");
+        let s2 = store.clone();
+        srv_rt.spawn(async move {
+            let _ = xs::api::serve(s2, engine, None).await;
+        });
+        let sock = store.path.join("sock");
+        let t0 = std::time::Instant::now();
+        while std::os::unix::net::UnixStream::connect(&sock).is_err() {
+            if t0.elapsed().as_secs() > 20 {
+                panic!("dur-child: the HTTP server did not come up");
+            }
+            std::thread::sleep(std::time::Duration::from_millis(2));
+        }
+        // api::serve announces itself with an xs.start frame: part of the history
+        open = json!({"start": store.head("xs.start", ZERO_CONTEXT).map(|f| f.id.to_string())});
+    }
     // std::fs::File is unbuffered: each write_all below is one write(2)
-    ack.write_all(b"OPEN\n").unwrap();
+    ack.write_all(format!("OPEN {open}\n").as_bytes()).unwrap();
     let mut ids: BTreeMap<u64, Scru128Id> = BTreeMap::new();
     let b64 = base64::prelude::BASE64_STANDARD;
     for (i, op) in spec["ops"].as_array().unwrap().iter().enumerate() {
@@ -76,6 +99,14 @@ pub fn child(args: &[String]) {
             verif::set_clock(Some(ms));
         }
         let res: Value = match op["op"].as_str().unwrap() {
+            "append" if op["via"].as_str() == Some("http") => {
+                let ctx = resolve_ctx(&op["ctx"], &ids);
+                let r = http_append(&store.path.join("sock"), op, ctx);
+                if let Some(id) = r["id"].as_str() {
+                    ids.insert(k, Scru128Id::from_str(id).unwrap());
+                }
+                r
+            }
             "append" => {
                 let ctx = resolve_ctx(&op["ctx"], &ids);
                 let hash = match op["content"].as_str() {
@@ -145,6 +176,40 @@ pub fn child(args: &[String]) {
     ack.write_all(b"DONE\n").unwrap();
     // no destructor runs: the journal's drop-time flush must not help the store
     std::process::exit(0);
+}
+
+/// POST /{topic}?context=..&ttl=.. with the content as body and the meta in xs-meta
+fn http_append(sock: &std::path::Path, op: &Value, ctx: Scru128Id) -> Value {
+    use std::io::Read;
+    let b64 = base64::prelude::BASE64_STANDARD;
+    let body = op["content"].as_str().map(|c| b64.decode(c).unwrap()).unwrap_or_default();
+    let mut target = format!("/{}?context={}", op["topic"].as_str().unwrap(), ctx);
+    if let Some(t) = op["ttl"].as_str() {
+        target.push_str(&format!("&ttl={t}"));
+    }
+    let mut head = format!("POST {target} HTTP/1.1\r\nHost: localhost\r\nConnection: close\r\nContent-Length: {}\r\n", body.len());
+    if !op["meta"].is_null() {
+        head.push_str(&format!("xs-meta: {}\r\n", b64.encode(op["meta"].to_string())));
+    }
+    head.push_str("\r\n");
+    let mut s = match std::os::unix::net::UnixStream::connect(sock) {
+        Ok(s) => s,
+        Err(e) => return json!({"ok": false, "err": format!("connect: {e}"), "http": 0}),
+    };
+    let mut resp = Vec::new();
+    if s.write_all(head.as_bytes()).and_then(|_| s.write_all(&body)).is_err() || s.read_to_end(&mut resp).is_err() {
+        // the connection was dropped without a response (a panic in the handler): an observation
+        return json!({"ok": false, "err": "connection dropped", "http": 0});
+    }
+    let text = String::from_utf8_lossy(&resp).to_string();
+    let status: u64 = text.split_whitespace().nth(1).and_then(|x| x.parse().ok()).unwrap_or(0);
+    let payload = text.split("\r\n\r\n").nth(1).unwrap_or("");
+    // the body may be chunked: take the JSON object out of it
+    let js = payload.find('{').and_then(|a| payload.rfind('}').map(|b| &payload[a..=b]));
+    match (status, js.and_then(|j| serde_json::from_str::<Value>(j).ok())) {
+        (200, Some(f)) => json!({"ok": true, "id": f["id"], "hash": f["hash"], "http": 200}),
+        _ => json!({"ok": false, "err": payload.chars().take(200).collect::<String>(), "http": status}),
+    }
 }
 
 // ------------------------------------------------------------------------- dur-recover
